@@ -68,6 +68,10 @@ def conservative(links):
   sysd.f['dof'].f['damping'] = np.array([Rat.lift(0)] * nv, dtype=object)
   sysd.f['dof'].f['limit'] = None
   tau = np.array([Rat.lift(0)] * nv, dtype=object)
+  # sys.opt.gravity keeps the value at load time: the model under test has its gravity REPLACED afterwards
+  # (sys.replace(gravity=...)), and the invariants are stated for sys.gravity
+  opt = sysd.f['opt']
+  sysd.f['opt'] = Struct('Opt', dict(opt.f, gravity=symarr('gload', (3,))))
   return M, sysd, tau
 
 
